@@ -134,12 +134,21 @@ func (v *Vue) evalTemplate(ctx VueContext, nodes []*html.Node, componentData map
 					ctx.stack.Set(boundName, result)
 					continue
 				}
+				if isFuncCallError(err) {
+					return nil, fmt.Errorf("in binding %s=\"%s\": %w", key, val, err)
+				}
+				if isFuncCallError(err) {
+					return nil, fmt.Errorf("in binding %s=\"%s\": %w", key, val, err)
+				}
 
 				// Fall back to expression evaluator for literals and arithmetic expressions
 				result, err = v.exprEval.Eval(val, v.exprEnv(ctx, val))
 				if err == nil {
 					ctx.stack.Set(boundName, result)
 					continue
+				}
+				if isFuncCallError(err) {
+					return nil, fmt.Errorf("in binding %s=\"%s\": %w", key, val, err)
 				}
 
 				// Final fallback to variable resolution
@@ -163,6 +172,9 @@ func (v *Vue) evalTemplate(ctx VueContext, nodes []*html.Node, componentData map
 				if err == nil {
 					ctx.stack.Set(boundName, result)
 					continue
+				}
+				if isFuncCallError(err) {
+					return nil, fmt.Errorf("in binding %s=\"%s\": %w", key, val, err)
 				}
 				valResolved, ok := ctx.stack.Resolve(val)
 				if ok {
